@@ -13,7 +13,9 @@ CONSTANTS Cfgs,          \* set of configurations [name, trace, lock, icpt, doma
           Depth,         \* number of calls after the base table (generation)
           EmitAll,       \* emit every history (BFS: prefixes are histories too) or only full-depth ones
           Battery,       \* "last" | "every"
-          CaseExtra      \* record merged into every emitted case (base / mirror flags ...)
+          CaseExtra,     \* record merged into every emitted case (base / mirror flags ...)
+          UrlProbes,     \* sequence of URL calls made after the request probes (C10)
+          RoundTrip      \* build the URL of every dispatched route from its captured parameters
 
 VARIABLES rt, prevRt, last, hist, nbase
 vars == <<rt, prevRt, last, hist, nbase>>
@@ -26,11 +28,19 @@ Rm(p, ms)     == [op |-> "remove", pat |-> p, methods |-> ms, mws |-> <<>>, chai
 Cl(pre)       == [op |-> "clean", pat |-> "", methods |-> <<>>, mws |-> <<>>, res |-> FALSE,
                   chain |-> IF pre = "" THEN <<>> ELSE <<[p |-> pre, mws |-> <<>>]>>]
 Us(mw)        == [op |-> "use", pat |-> "", methods |-> <<>>, mws |-> mw, chain |-> <<>>, res |-> FALSE]
+\* facade calls: ch = prefix chain (outermost first), isres: its last element is a Resource
+HF(ch, isres, p, ms, mw) == [op |-> "handle", pat |-> p, methods |-> ms, mws |-> mw, chain |-> ch, res |-> isres]
+RmF(ch, isres, p, ms)    == [op |-> "remove", pat |-> p, methods |-> ms, mws |-> <<>>, chain |-> ch, res |-> isres]
+ClF(ch, isres)           == [op |-> "clean", pat |-> "", methods |-> <<>>, mws |-> <<>>, chain |-> ch, res |-> isres]
+UrlP(via, strict, ch, isres, p, ps) == [op |-> "url", key |-> via, strict |-> strict, pat |-> p, params |-> ps, chain |-> ch, res |-> isres]
+Pf(p, mw) == [p |-> p, mws |-> mw]
+NoUrls == <<>>
 \* probes: W = simple-valued witness of a pattern, A = any other path
 W(p, wps) == [path |-> Subst(Parse(p).atoms, wps), wit |-> p, wps |-> wps]
 A(path)   == [path |-> path, wit |-> "", wps |-> <<>>]
 StdIcpt   == [digit |-> "digit", word |-> "word", any |-> "any"]
 Cfg(trace) == [name |-> "r", trace |-> trace, icpt |-> StdIcpt, domain |-> ""]
+CfgD(dom)  == [name |-> "r", trace |-> FALSE, icpt |-> StdIcpt, domain |-> dom]
 
 \* deterministic handler identity: re-registration after removal gets a fresh one in traces
 \* (the harness numbers them); in the bounded model the pattern+methods name is enough
@@ -109,6 +119,13 @@ C04_Allow ==
 \* C18: with WithTrace every path answers TRACE with the trace handler
 C18_Any == rt.cfg.trace => \A pr \in PS : ServeOutcomes(rt, "TRACE", pr.path) = {TraceReply(rt)}
 
+\* C10: building a dispatched route's pattern from the captured parameters reproduces the path
+C10_Roundtrip ==
+  \A pr \in PS : \A o \in ServeOutcomes(rt, "GET", pr.path) :
+     (o.kind \in {"route", "opt", "405"} /\ \A j \in ParamIdx(rt.tab[o.pat].atoms) : ~rt.tab[o.pat].atoms[j].ig) =>
+        \A strict \in BOOLEAN : LET u == URLResult(rt, strict, o.pat, o.params, TRUE)
+                                IN u.ok /\ u.val = rt.cfg.domain \o pr.path
+
 \* C17: a rejected Handle changes nothing (action property)
 C17_Atomic == [][last' = "rejected" => rt' = rt]_vars
 
@@ -128,5 +145,5 @@ C03_Frame ==
 CaseOf == [fam |-> "router", cfg |-> rt.cfg @@ [lock |-> FALSE], ops |-> hist, battery |-> Battery,
            skey |-> ToString([p \in Live(rt) |-> MethodsOf(rt, p)])] @@ CaseExtra
 Emit == (Len(hist) > nbase /\ (EmitAll \/ Len(hist) - nbase = Depth)) => PrintT("CASE " \o ToJson(CaseOf))
-PoolLine == PrintT("POOL " \o ToJson([pool |-> [probes |-> Probes, methods |-> ProbeMethods]]))
+PoolLine == PrintT("POOL " \o ToJson([pool |-> [probes |-> Probes, methods |-> ProbeMethods, urls |-> UrlProbes, rt |-> RoundTrip]]))
 =============================================================================
